@@ -1,17 +1,18 @@
 // C25 driver (package ctlcmd, compiled in with `go test -overlay`, build tag verif).
 //
 // Binds /verif/spec/Snapctl.tla to the real ctlcmd.Run:
-//   VERIF_MODE=sigs  discover every registered snapctl command (the real `commands` map), its
-//                    sub-commands, boolean / string-valued options and positional requirements (through
-//                    go-flags' own scanner + reflection) and write them with their abstract signatures.
-//   VERIF_MODE=run   read the table TLC exported (every abstract argv within the bound, for every real
-//                    signature, with the spec's outcome for uid root / non-root), instantiate each abstract
-//                    argv for EVERY real command of that signature (several spellings per token), run the real
-//                    Run(nil, argv, uid), observe Executed(which)/Help/Error/Forbidden (the executed command is
-//                    seen through the `verif` CommandHandler hook) and
-//                      - evaluate the property directly on the real observation,
-//                      - compare the real outcome with the spec's.
-//                    Also records seeded random vectors beyond the bound for I->T validation (TraceSnapctl).
+//
+//	VERIF_MODE=sigs  discover every registered snapctl command (the real `commands` map), its
+//	                 sub-commands, boolean / string-valued options and positional requirements (through
+//	                 go-flags' own scanner + reflection) and write them with their abstract signatures.
+//	VERIF_MODE=run   read the table TLC exported (every abstract argv within the bound, for every real
+//	                 signature, with the spec's outcome for uid root / non-root), instantiate each abstract
+//	                 argv for EVERY real command of that signature (several spellings per token), run the real
+//	                 Run(nil, argv, uid), observe Executed(which)/Help/Error/Forbidden (the executed command is
+//	                 seen through the `verif` CommandHandler hook) and
+//	                   - evaluate the property directly on the real observation,
+//	                   - compare the real outcome with the spec's.
+//	                 Also records seeded random vectors beyond the bound for I->T validation (TraceSnapctl).
 package ctlcmd
 
 import (
@@ -41,16 +42,16 @@ func (s verifSnapctlSig) key() string {
 }
 
 type verifSnapctlCmd struct {
-	Path       []string        `json:"path"`
-	Sig        verifSnapctlSig `json:"sig"`
-	BoolOpts   []string        `json:"bool_opts"`   // spellings: --long, -s
-	ValOpts    []string        `json:"val_opts"`    // string-valued: --long, -s
-	Unmodelled []string        `json:"unmodelled"`  // options of other kinds (int, optional-argument, choices...)
-	Positional []string        `json:"positional"`  // name[*][!]
-	Unsupported string         `json:"unsupported"` // reason this command cannot be modelled (then skipped)
-	SubNames   []string        `json:"sub_names"`
-	longVal    []string
-	shortVal   []string
+	Path        []string        `json:"path"`
+	Sig         verifSnapctlSig `json:"sig"`
+	BoolOpts    []string        `json:"bool_opts"`   // spellings: --long, -s
+	ValOpts     []string        `json:"val_opts"`    // string-valued: --long, -s
+	Unmodelled  []string        `json:"unmodelled"`  // options of other kinds (int, optional-argument, choices...)
+	Positional  []string        `json:"positional"`  // name[*][!]
+	Unsupported string          `json:"unsupported"` // reason this command cannot be modelled (then skipped)
+	SubNames    []string        `json:"sub_names"`
+	longVal     []string
+	shortVal    []string
 }
 
 func (c *verifSnapctlCmd) name() string { return strings.Join(c.Path, " ") }
@@ -692,7 +693,10 @@ func TestVerifSnapctl(t *testing.T) {
 						expected = row.User
 					}
 					abstractSeen[c.Sig.key()+"|"+uidc+"|"+strings.Join(row.Argv, " ")] = true
-					for _, uid := range uids[uidc] {
+					for ui, uid := range uids[uidc] {
+						if ui > 0 && v > 0 {
+							continue // the extra uids only with the first spelling
+						}
 						got, executed := verifSnapctlRun(argv, uid)
 						check(c, row.Argv, argv, uidc, uid, expected, got, executed, false)
 					}
